@@ -199,6 +199,7 @@ impl Api {
             ["obs"] => self.obs(),
             ["memcheck"] => self.memcheck(),
             ["wfcheck"] => self.wfcheck(),
+            ["graphdump"] => self.graphdump(),
             ["nodes"] => format!("nodes={}", self.ctx.impl_.node_count()),
             ["leakcheck"] => {
                 for (_, h) in self.h.iter() { if let H::L(l) = h { l.unlisten(); } }
@@ -316,6 +317,27 @@ impl Api {
             }
         }
         "wf=ok".into()
+    }
+
+    /// L-struct: dump of the live collector graph: every unfreed gc object ever created in this context, in creation
+    /// order (its rank among the live ones is its name); per object: kind, count, reported edges (sorted ranks).
+    fn graphdump(&self) -> String {
+        use std::collections::HashMap as Map;
+        let gc = self.ctx.impl_.gc_ctx();
+        gc.v_registry_prune();
+        let mut nodes = gc.v_registry();
+        nodes.sort_by_key(|n| n.v_id());
+        let rank: Map<u32, usize> = nodes.iter().enumerate().map(|(k, n)| (n.v_id(), k)).collect();
+        let mut parts = vec![];
+        for n in &nodes {
+            let mut edges: Vec<String> = vec![];
+            let mut es: Vec<usize> = vec![];
+            n.trace(|t| match rank.get(&t.v_id()) { Some(r) => es.push(*r), None => edges.push("freed".into()) });
+            es.sort();
+            edges.extend(es.iter().map(|x| x.to_string()));
+            parts.push(format!("{}:{}[{}]", n.v_name(), n.ref_count(), edges.join(",")));
+        }
+        format!("graph {}", parts.join(" "))
     }
 
     fn obs(&self) -> String {
